@@ -23,14 +23,14 @@ pub mod rw {
                 (*final(self)).after() == (*old(self)).after(), (*final(self)).pos_after() == (*old(self)).pos_after(), (*final(self)).kept() == (*old(self)).kept(), (*final(self)).origin() == (*old(self)).origin(),
                 final(buf)@.len() == old(buf)@.len(),
                 // std: "if an error is returned then it must be guaranteed that no bytes were read"
-                r is Err ==> (*final(self)).rem() == (*old(self)).rem() && (*final(self)).pos() == (*old(self)).pos(),
+                /*[C10,C02 failed_read_consumes_nothing]*/ r is Err ==> (*final(self)).rem() == (*old(self)).rem() && (*final(self)).pos() == (*old(self)).pos(),
                 r is Ok ==> {
                     let n = r->Ok_0 as int;
                     &&& n <= old(buf)@.len() && n <= (*old(self)).rem().len()
                     &&& (n == 0 <==> ((*old(self)).rem().len() == 0 || old(buf)@.len() == 0))
-                    &&& final(buf)@.take(n) == (*old(self)).rem().take(n)
-                    &&& (*final(self)).rem() == (*old(self)).rem().skip(n)
-                    &&& (*final(self)).pos() == (*old(self)).pos() + n
+                    &&& /*[C10,C02 reader_hands_out_the_next_bytes_of_the_stream]*/ final(buf)@.take(n) == (*old(self)).rem().take(n)
+                    &&& /*[C10,C02 reader_advances_by_what_it_handed_out]*/ (*final(self)).rem() == (*old(self)).rem().skip(n)
+                    &&& /*[C10,C11,C02 reader_position_counts_exactly_the_bytes_handed_out]*/ (*final(self)).pos() == (*old(self)).pos() + n
                 };
         proof fn law_suffix(&self)
             ensures self.rem().len() <= self.origin().len(), self.origin().skip(self.origin().len() - self.rem().len()) == self.rem();
